@@ -990,3 +990,89 @@ def strain(case, ctx):
         if not abs(e - want) <= 1e-13 * abs(want):
             raise Violation("%s %s(%r) = %r, closed form gives %r" % (case["law"], sname, s, float(e), want), bucket="strain:%s:%s" % (case["law"], case["branch"]))
     ctx.nontrivial(any(abs(v) > 0.5 * yield_stress(m) for v in values) or len(values) > 1)
+
+
+# ------------------------------------------------------------------------------------------------
+# sub-check 7: call history on ONE law object (public setters, the same load object passed again)
+
+@st.composite
+def _history_cases(draw, tier):
+    case = draw(_base())
+    if case["law"] == "SB":
+        case["K_p"] = draw(st.sampled_from([1.2, 2.0, 3.5, 10.0]))
+    kind = draw(st.sampled_from(["arr", "arr", "pyfloat", "series_range"] if case["law"] == "EN" else ["arr", "arr", "series_range"]))
+    case["container"] = kind
+    n = draw(st.sampled_from([2, 3, 8])) if kind != "pyfloat" else 1
+    case["loads"] = draw(_loads(case["Rm"], n, allow_zero=True))
+    kps = [1.2, 2.0, 3.5, 10.0] + ([1.0] if case["law"] == "EN" else [])
+    steps = []
+    for _ in range(draw(st.integers(2, 6))):
+        k = draw(st.sampled_from(["call", "call", "K_p", "K_p", "K_prime", "K", "scale_inplace"]))
+        if k == "call":
+            steps.append(["call", draw(st.sampled_from(["stress", "stress_secondary_branch"] + (["load", "load_secondary_branch"] if case["law"] == "EN" else [])))])
+        elif k == "K_p":
+            steps.append(["K_p", draw(st.sampled_from(kps))])
+        elif k == "scale_inplace":
+            steps.append(["scale_inplace", draw(st.sampled_from([0.5, 1.5, -1.0]))])
+        else:
+            steps.append([k, case["K"] * draw(st.sampled_from([0.7, 1.0, 1.3]))])
+    steps.append(["call", "stress"])
+    case["steps"] = steps
+    return case
+
+
+@subcheck(PROP, "setter_history", strategy=_history_cases, quick=400, thorough=15000,
+          doc="ONE law object, ONE load object: calls interleaved with K_p / K_prime / K set through the public setters and in-place changes of "
+              "the load array; every call must return exactly what a FRESH law with the current parameters returns for a copy of the loads")
+def setter_history(case, ctx):
+    kind = case["container"]
+    _describe(case, ctx, case["loads"])
+    law = make_law(case)
+    cur = dict(case)
+    rtol, tol = case["rtol"], case["tol"]
+    x = container(kind, case["loads"])            # the SAME object is passed to every call
+    values = list(case["loads"])
+    changed = False
+    nt = False
+    for step in case["steps"]:
+        if step[0] == "call":
+            fname = step[1]
+            vals = [v * 0.4 for v in values] if fname.startswith("load") else values
+            arg = x if not fname.startswith("load") else container(kind, vals)
+            fresh = make_law(cur)
+            try:
+                want = call(fresh, fname, container(kind, vals), rtol, tol)
+            except SolverRaised:
+                want = None
+            try:
+                got = call(law, fname, arg, rtol, tol, ctx)
+            except SolverRaised:
+                got = None
+            if (got is None) != (want is None):
+                raise Violation("%s %s after %r: the used law object %s, a fresh law with the same parameters %s"
+                                % (case["law"], fname, case["steps"], "raises" if got is None else "returns", "raises" if want is None else "returns"),
+                                bucket="history:raise_mismatch")
+            if got is None:
+                ctx.tolerate("RuntimeError: solver failed to converge")
+                continue
+            if len(got) != len(want) or not all((a == b) or (a != a and b != b) for a, b in zip(got, want)):
+                raise Violation("%s %s(%r) on a law object with history %r = %r, a fresh law with the current parameters (K'=%r, K_p=%r) gives %r"
+                                % (case["law"], fname, vals, case["steps"], list(got), cur["K"], cur["K_p"], list(want)),
+                                bucket="history:%s:%s" % (case["law"], fname))
+            nt = nt or changed
+        elif step[0] == "scale_inplace":
+            if kind == "pyfloat":
+                continue
+            values = [v * step[1] for v in values]
+            if kind == "arr":
+                x *= step[1]
+            else:
+                x.iloc[:] = np.array(values, dtype=float)
+            changed = True
+            ctx.label("inplace_change")
+        else:
+            setattr(law, step[0], step[1])
+            cur["K_p" if step[0] == "K_p" else "K"] = step[1]
+            ctx.label("set:" + step[0])
+            changed = True
+    ctx.nontrivial(nt)
